@@ -386,9 +386,10 @@ structure Guards where
   condNoElse : Bool          -- CondExpr.as_const raises Impossible when the else branch is missing and needed
   fromUntrusted : Bool       -- Optimizer folds only values with a safe repr
   optSkipsVolatile : Bool    -- optimizeconst does not run the optimiser in a volatile frame
+  resultSafeRepr : Bool      -- Filter/Test/Getattr/Getitem.as_const give up on results without a safe repr (`_const_result`)
   deriving Repr, DecidableEq
 
-def Guards.all : Guards := ⟨true, true, true, true, true, true, true, true, true, true, true⟩
+def Guards.all : Guards := ⟨true, true, true, true, true, true, true, true, true, true, true, true⟩
 
 /-! ## attribute / item lookup (environment.py:467-495) -/
 
@@ -863,6 +864,12 @@ def okOpt {α} : Except Err α → Option α
   | .ok a => some a
   | .error _ => Option.none
 
+/-- `nodes._const_result`: a computed value takes part in further folding only if it has a safe repr -/
+def constResult (g : Guards) (r : Option Val) : Option Val :=
+  match r with
+  | some v => if g.resultSafeRepr && !safeRepr v then Option.none else some v
+  | Option.none => Option.none
+
 /- **`Expr.as_const`** of every node class (nodes.py), `none` = `Impossible` -/
 mutual
 def asConst (g : Guards) (t : Tables) (c : CCfg) : Expr → Option Val
@@ -906,15 +913,15 @@ def asConst (g : Guards) (t : Tables) (c : CCfg) : Expr → Option Val
     | Option.none => Option.none
   | .getattr e a =>
     match asConst g t c e with
-    | some v => if isObj v then Option.none else okOpt (envGetattr emptyCtx v a)   -- constants are literals, never data objects
+    | some v => if isObj v then Option.none else constResult g (okOpt (envGetattr emptyCtx v a))   -- constants are literals, never data objects
     | Option.none => Option.none
   | .getitem e i =>
     match asConst g t c e, asConst g t c i with
-    | some v, some iv => if isObj v then Option.none else okOpt (envGetitem emptyCtx v iv)
+    | some v, some iv => if isObj v then Option.none else constResult g (okOpt (envGetitem emptyCtx v iv))
     | _, _ => Option.none
   | .slice e a b s =>
     match asConst g t c e, asConstOpt g t c a, asConstOpt g t c b, asConstOpt g t c s with
-    | some v, some av, some bv, some sv => okOpt (pySlice v av bv sv)
+    | some v, some av, some bv, some sv => constResult g (okOpt (pySlice v av bv sv))
     | _, _, _, _ => Option.none
   | .call _ _ => Option.none
   | .filter e name args =>
@@ -925,7 +932,7 @@ def asConst (g : Guards) (t : Tables) (c : CCfg) : Expr → Option Val
       if g.filterContext && info.pass == .context then Option.none else
       if g.filterAsync && c.isAsync && info.asyncVariant then Option.none else
       match asConst g t c e, asConstList g t c args with
-      | some v, some vs => okOpt (applyFilter c.autoescape name v vs)
+      | some v, some vs => constResult g (okOpt (applyFilter c.autoescape name v vs))
       | _, _ => Option.none
   | .test e name args =>
     if g.filterVolatile && c.volatile then Option.none else
@@ -935,7 +942,7 @@ def asConst (g : Guards) (t : Tables) (c : CCfg) : Expr → Option Val
       if g.filterContext && info.pass == .context then Option.none else
       if g.filterAsync && c.isAsync && info.asyncVariant then Option.none else
       match asConst g t c e, asConstList g t c args with
-      | some v, some vs => okOpt ((applyTest name v vs).map .bool)
+      | some v, some vs => constResult g (okOpt ((applyTest name v vs).map .bool))
       | _, _ => Option.none
 def asConstList (g : Guards) (t : Tables) (c : CCfg) : List Expr → Option (List Val)
   | [] => some []
